@@ -316,6 +316,7 @@ Inductive path :=
 | PStructure (code : str)     (* return <structure_from_dict(response.json(), …)> — needs the cattrs import *)
 | PStreamBytes                (* async for chunk in iter_bytes(response): yield chunk *)
 | PStreamSse                  (* async for chunk in iter_sse_events_text(response): yield json.loads(chunk) *)
+| PEndIter                    (* bare `return` in an async generator: the iteration yields nothing and ends *)
 | PRaiseHTTP                  (* no case for this status: the `case _` raises HTTPError *)
 | PGenError.                  (* the generator raises ValueError while rendering *)
 
@@ -360,7 +361,16 @@ Definition cprocessed (o : cop) : option (cresp * N) :=
   | None => None
   end.
 
-Definition secondary_path (reg : registry) (r : cresp) : path :=
+(* a further 2xx response.  In a streaming operation (the method is an async generator) it is consumed with the
+   operation's streaming strategy, or ends the iteration with a bare `return` when it has no body; otherwise it is
+   resolved individually *)
+Definition secondary_path (reg : registry) (s : strategy) (ct : str) (r : cresp) : path :=
+  if st_streaming s then
+    match cr_content r with
+    | [] => PEndIter
+    | _ => (if contains_s (show (TAsyncIter (TPrim PBytesT))) (show (st_ret s)) then PStreamBytes else PStreamSse)
+    end
+  else
   match handler_schema (cr_content r) with
   | None => PNone
   | Some e => json_path reg (c_type e)
@@ -389,12 +399,12 @@ Definition handle (reg : registry) (o : cop) (st : N) (ct : str) : path :=
   let after_primary :=
     match find_status st (cothers o) with
     | Some r => match cr_code r with
-                | Num m => if lead2 m then secondary_path reg r else PRaiseHTTP
+                | Num m => if lead2 m then secondary_path reg s ct r else PRaiseHTTP
                 | _ => PRaiseHTTP
                 end
     | None => match wildcard_resp o with
               | Some w => if in_range wildcard_lo wildcard_hi st
-                          then (if is_strategy_resp o w then prim_path else secondary_path reg w)
+                          then (if is_strategy_resp o w then prim_path else secondary_path reg s ct w)
                           else default_branch
               | None => default_branch
               end
@@ -428,7 +438,7 @@ Definition secondary_registers (reg : registry) (r : cresp) : bool :=
   match handler_schema (cr_content r) with Some e => should_use_cattrs reg (show (c_type e)) | None => false end.
 Definition registers_cattrs (reg : registry) (o : cop) : bool :=
   emits_strategy o && strategy_registers reg (resolve o)
-  || existsb (fun r => is_secondary_2xx o r && secondary_registers reg r) (cothers o).
+  || negb (st_streaming (resolve o)) && existsb (fun r => is_secondary_2xx o r && secondary_registers reg r) (cothers o).
 Definition module_has_cattrs (reg : registry) (ops : list cop) : bool := existsb (registers_cattrs reg) ops.
 
 (* ------------------------------------------------------------------ the property, on the decision model *)
@@ -455,6 +465,7 @@ Definition ideal (primary : bool) (r : cresp) (e : option centry) : want :=
 Definition delivers (imported : bool) (p : path) (w : want) : bool :=
   match p, w with
   | PNone, WNone => true
+  | PEndIter, WNone => true       (* reading: in a streaming method "returns None" = yields nothing and ends *)
   | PText, WText => true
   | PContent, WBytes => true
   | PStreamBytes, WStreamBytes => true
@@ -512,7 +523,8 @@ Definition emits_yield (o : cop) : bool :=
   let s := resolve o in
   st_streaming s && negb (is_none_ret s)
   && emits_strategy o.
-Definition emits_value_return (o : cop) : bool := existsb (is_secondary_2xx o) (cothers o).
+Definition emits_value_return (o : cop) : bool :=
+  negb (st_streaming (resolve o)) && existsb (is_secondary_2xx o) (cothers o).
 Definition module_syntax_ok (ops : list cop) : bool :=
   forallb (fun o => negb (emits_yield o && emits_value_return o)) ops.
 
@@ -541,6 +553,10 @@ Definition guard_F05c (d : dcase) : bool :=
   match the_entry d with
   | None => true
   | Some e =>
+      if negb (is_primary_case d) && st_streaming (resolve (the_cop d)) then
+        (* consumed with the PRIMARY's streaming strategy whatever its own content type is *)
+        delivers true (the_path d) (the_want d)
+      else
       if is_stream r then is_primary_case d else
       let single := match cr_content r with [_] => true | _ => false end in
       let collapsed := match dedup_types (map ctype_to_python (cr_content r)) [] with [_] => true | _ => false end in
@@ -555,8 +571,6 @@ Definition guard_F05c (d : dcase) : bool :=
 (* F05f: line/record streams (ndjson, json-seq, multipart) are read with the SSE parser *)
 Definition guard_F05f (d : dcase) : bool :=
   match the_want d with WStreamItems => false | _ => true end.
-(* F05h: some operation of the module is an async generator with a `return <value>` branch (SyntaxError) *)
-Definition guard_F05h (d : dcase) : bool := module_syntax_ok (d_module d).
 (* F05i: a JSON response whose type the single return annotation does not cover (secondary 2xx of another type) *)
 Definition guard_F05i (d : dcase) : bool :=
   match the_entry d with
@@ -566,4 +580,4 @@ Definition guard_F05i (d : dcase) : bool :=
   end.
 
 Definition c05_guard (d : dcase) : bool :=
-  guard_F05b d && guard_F05c d && guard_F05f d && guard_F05h d && guard_F05i d.
+  guard_F05b d && guard_F05c d && guard_F05f d && guard_F05i d.
